@@ -27,6 +27,8 @@ EXTENDS Integers, Sequences, FiniteSets, TLC, Json, RemotePickleProps
 CONSTANTS Scns, Algo, SeedCopyreg,
           SharedCtx,  \* the load context is one object for the whole process instead of a threading.local (FALSE = as written)
           CtxCopy,    \* context(extra_kwargs) is a (shallow) copy of the caller's dictionary (TRUE = as written)
+          CacheById,  \* the opt-in check cache is keyed by the ADDRESS of the class (FALSE = as written: by the class itself, which
+                      \* the cache keeps alive); a class created after another one was dropped can get its address
           KwOnlyOK,   \* remote_reduce accepts __getnewargs_ex__ returning keyword arguments only (TRUE = the code as written since
                       \* repo commit 35e075b; FALSE = before it: RuntimeError('Internal bad call'), the variant TLC must reject)
           InitGuard   \* context.__init__ refuses to start when the thread-local still has a stack (FALSE = the code as written)
@@ -102,7 +104,9 @@ NG == IF scn.t = "graph" THEN Len(scn.g) ELSE 0
 ViaTok == IF scn.op = "rp" /\ scn.remote THEN "R" ELSE "L"
 \* do opt-in instances go through remote_reduce?  remote=True: always (dyn_dispatch_table asks
 \* issubclass); remote=False: only classes already in supported_classes
-UsesRR == scn.op = "rp" /\ (scn.remote \/ scn.marker \/ scn.seen)
+\* (graph scenarios with churn: short-lived plain classes were remote-pickled and dropped before the opt-in classes of
+\* the scenario were created; `cached` = "no" when a cache keyed by address answers for one of those with the stale entry)
+UsesRR == scn.op = "rp" /\ (scn.remote \/ scn.marker \/ scn.seen) /\ cached # "no"
 TLInit == [stack |-> <<>>, iter |-> -1, unused |-> TRUE, has |-> FALSE]
 ExInit == [st |-> "wait", pos |-> 1, pm |-> {}, rest |-> [i \in 1..NG |-> BaseEnt(scn, i, ViaTok)],
            ssn |-> [i \in 1..NG |-> IF scn.g[i].kind = "opt" /\ scn.g[i].ss /\ ~UsesRR THEN 1 ELSE 0],   \* standard unpickling calls it
@@ -112,7 +116,8 @@ InitWith(S) ==
         /\ scn \in S
         /\ pc = (IF scn.t = "graph" THEN "dump" ELSE "scan")
         /\ cq = (IF scn.t = "cls" THEN ClsQueue(scn) ELSE <<>>)
-        /\ cs = ScanInit /\ cached = "none" /\ created = "ok" /\ res0 = [outcome |-> "none"]
+        /\ cs = ScanInit /\ created = "ok" /\ res0 = [outcome |-> "none"]
+        /\ cached \in (IF scn.t = "graph" /\ scn.churn /\ CacheById THEN {"none", "no"} ELSE {"none"})
         /\ work = (IF scn.t = "graph" THEN <<[a |-> "v", n |-> 1]>> ELSE <<>>)
         /\ memo = {} /\ gs = [i \in 1..NG |-> <<>>] /\ ops = <<>> /\ claims = {}
         /\ ex = [e \in 1..(2 * K) |-> ExInit]
@@ -417,6 +422,7 @@ R_ParPlain     == pc = "load" /\ OptNodes(scn) = {} /\ K >= 2 /\ ex[1].st = "run
 R_Residue2     == Terminal /\ scn.t = "graph" /\ \E e \in 1..K : \E m \in ex[e].pm : Len(m.p) >= 2
 R_NewArgsEx    == Terminal /\ scn.t = "graph" /\ res0.outcome = "none" /\ \E i \in 1..NG : scn.g[i].fs \in {"xa", "xk"} /\ ex[1].ssn[i] = 1
 R_KwOnly       == Terminal /\ scn.t = "graph" /\ UsesRR /\ res0.outcome = "none" /\ \E i \in 1..NG : scn.g[i].fs = "xo" /\ ex[1].ssn[i] = 1
+R_Churn        == Terminal /\ scn.t = "graph" /\ scn.churn /\ UsesRR /\ OptNodes(scn) # {}
 R_LowProto     == Terminal /\ scn.t = "leaf" /\ scn.pclass = "low" /\ scn.lowfails
 R_Siblings     == pc = "load" /\ \E t \in DOMAIN tl : Len(tl[t].stack) >= 3
 R_PatchDelivered == Terminal /\ scn.t = "graph" /\ \E e \in 1..K : ex[e].out = "ok" /\ ex[e].pm # {}
@@ -436,7 +442,7 @@ WitDump == /\ Wit("Warning", R_Warning) /\ Wit("DumpWarning", R_DumpWarning) /\ 
            /\ Wit("PatchDelivered", R_PatchDelivered) /\ Wit("Failure", R_Failure) /\ Wit("Residue", R_Residue)
            /\ Wit("Concurrency", R_Concurrency) /\ Wit("MemoGet", R_MemoGet) /\ Wit("StdPath", R_StdPath)
            /\ Wit("AfterFail", R_AfterFail) /\ Wit("Falsy", R_Falsy)
-           /\ Wit("FailedThenLoad", R_FailedThenLoad) /\ Wit("NewArgsEx", R_NewArgsEx) /\ Wit("KwOnly", R_KwOnly) /\ Wit("ParPlain", R_ParPlain) /\ Wit("NestedResidue", R_Residue2) /\ Wit("LateCopyreg", R_LateCopyreg) /\ Wit("LowProto", R_LowProto)
+           /\ Wit("FailedThenLoad", R_FailedThenLoad) /\ Wit("NewArgsEx", R_NewArgsEx) /\ Wit("KwOnly", R_KwOnly) /\ Wit("Churn", R_Churn) /\ Wit("ParPlain", R_ParPlain) /\ Wit("NestedResidue", R_Residue2) /\ Wit("LateCopyreg", R_LateCopyreg) /\ Wit("LowProto", R_LowProto)
 
 \* ---- every terminal state as a case for the replay on the real code ----
 CaseDump == Terminal => PrintT(<<"CASE", ToJson(Rec)>>)
